@@ -7,10 +7,12 @@ chooses a generator profile and the violation classes it owns.
 import copy
 import hashlib
 import json
+import re
 
 import voluptuous as vol
 
 from model import tables
+from model import gateway_model
 from model.gateway_model import GatewayModel
 from model.ota_model import crc16_modbus, intel_hex, le16, unle16
 from sim import broker as simbroker
@@ -25,7 +27,7 @@ OWNER = {
     "thread-died": "C01", "loop-exception": "C01", "logic-raised": "C01", "recv-raised": "C01",
     "rejected-line-had-effect": "C01", "connection-torn-down": "C01",
     "state-mismatch": "C04", "callback-missing": "C04", "callback-spurious": "C04",
-    "callback-args": "C04", "callback-before-state": "C04",
+    "callback-args": "C04", "callback-before-state": "C04", "id-node-missing": "C04",
     "reply-missing": "C05", "reply-spurious": "C05", "reply-wrong": "C05",
     "emitted-malformed": "C05", "emitted-invalid": "C05", "misaddressed": "C05", "time-reply-wrong": "C05",
     "id-out-of-range": "C06", "id-reused": "C06", "id-request-raised": "C06", "id-known": "C06", "id-response-missing": "C06",
@@ -132,6 +134,7 @@ class NetRun:
         self.poisoned = set()  # nodes whose desired state holds a value the wire cannot carry
         self.stopping = False
         self.inject_at_save = None
+        self.link_fault = None
         self.state_diverged = False
         self.inject_at_final_save = None
         self.pending_fault = None
@@ -439,10 +442,59 @@ class NetRun:
         exp = self.model.on_line(fields, (int(t_before + off), int(t_after + off)))
         self.kinds.add(exp.kind)
         self.cur_kind = exp.kind
+        link_fault, self.link_fault = self.link_fault, None
+        if link_fault is not None and link_fault.write_exc is None:
+            # the armed write error fired while this line was handled: the link broke under the reply /
+            # burst.  What was due is lost with the link (or a prefix got out); it may never come later.
+            self.faults["write_error_under_reply"] = self.faults.get("write_error_under_reply", 0) + 1
+            due = [e["line"] for e in exp.out] + [e["line"] for e in exp.out_set]
+            extra = [ln for ln, _ok in out if ln not in due and exp.id_response is None]
+            if extra:
+                self.add(vio("reply-spurious", {"line": text, "got": extra, "model_kind": exp.kind, "note": "link failed under the reply"},
+                             model_kind=exp.kind))
+            if exp.wake is not None:
+                self.probe("burst_lost_with_link")
+            self._check_callbacks(exp, fields, cbs)
+            self._check_state(text)
+            self._await_link()
+            self.trace.append(("ok-linkdrop", text[:60]))
+            return ok
+        if link_fault is not None:
+            link_fault.write_exc = None  # nothing was written for this line: the fault is withdrawn
         self._check_expect(exp, fields, out, cbs, (int(t_before + off), int(t_after + off)), text)
         self._check_state(text)
         self.trace.append(("ok", text[:60], [o[0][:40] for o in out][:4]))
         return ok
+
+    def op_linkdrop(self):
+        """Arm one write error (the link breaks) for the reply / burst of the NEXT line."""
+        conn = self.world.device.current() if self.broker is None else None
+        if conn is None or not conn.is_open or not hasattr(conn, "fail_write") or self.flavour not in ("serial", "tcp"):
+            self.probe("linkdrop_skipped")
+            return
+        conn.fail_write(OSError(32, "Broken pipe (simulated)"))
+        self.link_fault = conn
+
+    def _await_link(self):
+        """After a lost link: the gateway re-dials on its own; wait (bounded) until it is back."""
+        world = self.world
+        for _ in range(8):
+            world.advance(3.0)
+            conn = world.device.current()
+            if conn is not None and conn.is_open:
+                break
+        else:
+            self.probe("link_not_back")
+        # nothing was received meanwhile: whatever the gateway wrote on the new link on its own (watchdog
+        # probes are filtered) is traffic nobody asked for - a command lost with the old link coming back
+        for ln, _ok in self.out_lines():
+            flds = tables.parse_canonical(ln)
+            asleep = flds is not None and self.model.sleeping(flds[0])
+            self.add(vio("sent-while-asleep" if asleep else "reply-spurious",
+                         {"got": [ln], "model_kind": "link-back", "note": "written after the link came back, nothing was received"},
+                         model_kind="link-back"))
+        self.new_callbacks()
+        self.health()
 
     def op_chunk(self, items):
         """Several lines delivered in ONE chunk (device flavours only): the reader frames them and
@@ -537,6 +589,13 @@ class NetRun:
         node = fields[0]
         lines = [o[0] for o in out]
         sleeping_ctx = exp.wake is not None or any(n[0] == "held" for n in exp.notes)
+        # ---- universal C07 clause: handling a line of one node never releases traffic for ANOTHER node
+        # that is asleep (its only window is the burst that follows its own wake-up announcement)
+        for ln in lines:
+            flds = tables.parse_canonical(ln)
+            if flds is not None and flds[0] not in (node, 255) and self.model.sleeping(flds[0]):
+                self.add(vio("sent-while-asleep", {"line": text, "got": [ln], "model_kind": exp.kind,
+                                                   "note": "addressed to another node that is asleep"}, model_kind=exp.kind))
         ota_ctx = fields[2] == 4
         # ---- id response (C06) ---------------------------------------------------
         if exp.id_response is not None:
@@ -620,8 +679,8 @@ class NetRun:
                     pool.remove(hit)
             if cls == "burst-missing" and item_kind == "held:req-reply":
                 # a value request that had to be answered (reported or pending desired value) got no answer at all
+                # (C05's reading: the request never gets its reply; C08's reading: a withheld reply is not emitted)
                 self.add(vio("reply-missing", detail, model_kind="req(held)"))
-                return
             self.add(vio(cls, detail, item=item_kind))
             return
         if sleeping_ctx or (self.model.sleeping(fields[0]) and kind != "missing"):
@@ -638,6 +697,7 @@ class NetRun:
         self.add(vio(cls, detail, model_kind=exp.kind))
 
     def _check_callbacks(self, exp, fields, cbs):
+        self._adopt_versions()
         if self.cfg.get("no_callback"):
             return  # the gateway was built without an event callback
         entries = [c[0] for c in cbs]
@@ -660,7 +720,24 @@ class NetRun:
             if exp.cb == "must" and snap is not None and not self.state_diverged and snap != self.model.projection():
                 self.add(vio("callback-before-state", {"fields": list(want), "diff": _diff(snap, self.model.projection())}, model_kind=exp.kind))
 
+    def _adopt_versions(self):
+        """Resolve the model's ADOPT markers (node version left open by the statement)."""
+        for nid, rec in self.model.nodes.items():
+            if rec.get("version") == gateway_model.ADOPT:
+                node = self.world.gateway.sensors.get(nid)
+                held = getattr(node, "protocol_version", None)
+                self.probe("node_version_adopted")
+                if isinstance(held, str) and re.match(r"^\d+\.\d+(\.\d+)?$", held):
+                    rec["version"] = held
+                else:
+                    # whatever it is, it must be something the node's later messages can be judged by
+                    rec["version"] = "1.4"
+                    if node is not None:
+                        self.add(vio("state-mismatch", {"after": "node presentation without a version",
+                                                        "diff": {"protocol_version": repr(held)}}))
+
     def _check_state(self, text):
+        self._adopt_versions()
         if self.state_diverged:
             return
         real = W.projection(self.world.gateway.sensors)
@@ -706,6 +783,8 @@ class NetRun:
         if not resp:
             if exp.id_response == "required":
                 self.add(vio("id-response-missing", {"known": sorted(self.model.nodes)}))
+                # C04's side of the same event: an id that can be assigned creates a node in the tree
+                self.add(vio("id-node-missing", {"known": sorted(self.model.nodes), "tree": sorted(self.world.gateway.sensors, key=repr)[:12]}))
             self.probe("id_no_response")
             if exp.id_response == "optional":
                 self.probe("id_space_exhausted")
@@ -959,11 +1038,18 @@ class NetRun:
         except Exception as exc:  # pylint: disable=broad-except
             self.add(vio("stop-raised", {"exc": repr(exc)}, exc=type(exc).__name__))
             self.clean_history = False
-        world.settle()
+        immediate = bool(opts and opts.get("immediate")) and late_line is None
+        if immediate:
+            # the application starts the next gateway the moment stop() has returned (same process, same
+            # loop): anything the old one left running behind its back now races with the new one's load
+            self.probe("restart_immediately_after_stop")
+        else:
+            world.settle()
         self.stopping = False
         self.inject_at_save = None  # a line that found no save to ride on is not delivered to the next lifetime
         self.tick_times = []  # the next lifetime has its own save schedule
-        world.advance(0.1)
+        if not immediate:
+            world.advance(0.1)
         stopped_gateway = world.gateway
         if late_line is not None:
             # what the gateway held when it stopped (a line it still handled during stop() counts)
@@ -1142,6 +1228,8 @@ class NetRun:
                 self.op_race(op[1])
             elif kind == "line_at_save":
                 self._deliver_and_observe(op[1], "\n", at_save=True)
+            elif kind == "linkdrop":
+                self.op_linkdrop()
             elif kind == "line_at_tick":
                 self._deliver_and_observe(op[1], "\n", at_save="tick")
             elif kind == "raw":
